@@ -10,8 +10,8 @@ import (
 	"strings"
 
 	topologyaware "github.com/containers/nri-plugins/cmd/plugins/topology-aware/policy"
-	tacfg "github.com/containers/nri-plugins/pkg/apis/config/v1alpha1/resmgr/policy/topologyaware"
 	polcfg "github.com/containers/nri-plugins/pkg/apis/config/v1alpha1/resmgr/policy"
+	tacfg "github.com/containers/nri-plugins/pkg/apis/config/v1alpha1/resmgr/policy/topologyaware"
 	libmem "github.com/containers/nri-plugins/pkg/resmgr/lib/memory"
 	policyapi "github.com/containers/nri-plugins/pkg/resmgr/policy"
 	"github.com/containers/nri-plugins/pkg/zzverif/vfkit"
@@ -293,7 +293,7 @@ func checkTAExclusive(e *executor, r *stepResult) *vfkit.Violation {
 			delete(lost, c.ID)
 		} else if had[c.ID] {
 			had[c.ID] = false
-			lost[c.ID] = r.Handler
+			lost[c.ID] = r.lostBy(c.ID)
 		}
 	}
 	// with pinCPU off the plugin pins nothing: cpusets the runtime still holds
